@@ -69,12 +69,17 @@ func mkCase(kind string, names, contents []string) caseT {
 }
 
 // setCase hashes one listing; returns msg, hash ("" if refused).
-func setCase(names, contents []string) (string, string) {
+func setCase(names, contents []string) (msg string, class string) {
 	m := map[string]string{}
 	for i, n := range names {
 		m[n] = contents[i]
 	}
-	list := append([]string(nil), names...)
+	list, intact := enum.Spare(names, "sentinel-pad", 2)
+	defer func() {
+		if !intact() && msg == "" {
+			msg, class = "Hash1 wrote into the caller's array behind the end of the file list", "set"
+		}
+	}()
 	opened := map[string]int{}
 	got, err := dirhash.Hash1(list, func(n string) (io.ReadCloser, error) {
 		opened[n]++
